@@ -1130,7 +1130,7 @@ func addTagDelta(newBlockE, curBlockE Elements, tagDelta map[Tag]tagDeltaT) {
 		removed := curElem.Tags.Removed(newElem.Tags)
 		for _, tag := range removed {
 			td, found := tagDelta[tag]
-			if found {
+			if found && td.erase != nil {
 				td.erase[zyx] = struct{}{}
 			} else {
 				td.erase = map[string]struct{}{
